@@ -36,6 +36,8 @@ def _single_source(val, opt, defaults):
     """which source does an observed single value come from (for the signature)"""
     if val == defaults["single"][opt]:
         return 0
+    if val == "":
+        return -2
     try:
         return int(val[1:]) if opt == "lang" else int(val) - 100
     except Exception:
@@ -78,13 +80,17 @@ CLAIM = dict(
          "single-valued options (string, duration, int) and five documented repeated options are read back and compared with "
          "the spec's allowed result. A sample of cases is also run end to end through the real plz binary "
          "(`plz query config`, --profile, -o) in a scratch repo and scratch HOME.",
-    note="Quick: single-valued option exhaustive over all 2^11 subsets of sources (one profile), explicit-empty values in <=3 "
-         "sources, repeated option with <=4 files saying {value, blank} x {-o absent, -o two values}, <=2 files over the richer "
-         "menu {blank+value, value+blank, two values}; thorough: all 3^10 x 3 repeated assignments, two profiles, no profile. "
-         "When the last thing said about a repeated option is a blank the statement is read weakly: both the empty list and "
-         "the default are accepted. Default VALUES are taken from the code's own no-source run (only WHEN they apply is "
-         "checked). XDG_CONFIG_DIRS / XDG_CONFIG_HOME extra locations are unset. Plugin sections and undocumented options are "
-         "out of scope. The e2e sample cannot place a machine-level file (/etc is never touched).",
+    note="Quick (one profile, 10 files + -o): single-valued option exhaustive over all 2^11 subsets of sources, explicit-empty "
+         "values in <=3 sources, repeated option with <=4 files saying {value, blank} x {-o absent, -o two values}, <=2 files "
+         "over the richer menu {blank+value, value+blank, two values}, both options together in <=1 source each. Thorough: all "
+         "3^10 file assignments of the repeated option x {-o absent, -o two values}, rich menu in <=3 files, empties in <=4; two "
+         "profiles (15 files) with <=5 / <=3 active sources; no profile (5 files) exhaustive incl. the rich menu and -o of one "
+         "value. When the last thing said about a repeated option is a blank the statement is read weakly: both the empty "
+         "list and the default are accepted. Default VALUES are taken from the code's own no-source run (only WHEN they "
+         "apply is checked). XDG_CONFIG_DIRS / XDG_CONFIG_HOME extra locations are unset. Plugin sections ([Plugin \"x\"] "
+         "repeatable values are replaced, not accumulated, by a later file) and undocumented options (java.defaultmavenrepo "
+         "appends to a preset default) are out of scope. The e2e sample (40 quick / 400 thorough cases) cannot place a "
+         "machine-level file (/etc is never touched).",
     technique="TLA+ spec Config.tla model-checked with TLC; TLC-enumerated cases replayed into the real config reader")
 
 
@@ -105,7 +111,8 @@ def _judge(ctx, case, o, defaults, where):
         if got != want:
             gs = _single_source(got, opt, defaults)
             ctx.violation("C39 single-valued precedence: expected %s, got value of %s"
-                          % (_layer_name(case, exp["single"]["src"]), _layer_name(case, gs) if gs >= 0 else "unknown"),
+                          % (_layer_name(case, exp["single"]["src"]), _layer_name(case, gs) if gs >= 0 else
+                             ("an explicitly empty value" if gs == -2 else "unknown")),
                           dict(detail, option=opt, want=want, got=got))
             break
     for opt, got_raw in o["rep"].items():
@@ -186,17 +193,14 @@ def _e2e_query(ctx, plz, root, profiles, overrides):
                 rep={"%s.%s" % (sec, key): list(d[sec].get(key) or []) for sec, key in _REP_OPTS})
 
 
-def _e2e(ctx, cases, e2e_cases):
+def _e2e(ctx, e2e_cases):
     """A sample of the cases through the real binary: files written under a scratch HOME and a scratch repository,
     `plz --profile .. -o .. query config --json` read back. The machine-level file cannot be placed (/etc is never
     touched), so only cases without it are eligible."""
-    if e2e_cases is None:
-        n = 40 if ctx.quick else 400
-        eligible = [c for c in cases if not any(f["base"] == "machine" for f in c["files"])
-                    and len(c["files"]) + (c["override"]["single"] != "absent") + (c["override"]["rep"] > 0) >= 2]
-        random.Random(ctx.seed).shuffle(eligible)
-        e2e_cases = eligible[:n]
     if not e2e_cases:
+        return
+    if any(os.path.exists("/etc/please/plzconfig" + sfx) for sfx in ("", ".p1", ".p2")):
+        ctx.notes.append("e2e skipped: this machine has a real /etc/please/plzconfig")
         return
     plz = vlib.build_plz()
     root = os.path.join(ctx.scratch, "e2e-c39")
@@ -246,36 +250,50 @@ def run(ctx):
                        "after a final blank both the empty list and the default list are accepted",
                        "default values are whatever the code yields with no source at all; only when they apply is checked",
                        "-o with a comma-separated value is the command-line form of a list"]
+    st = dict(next_id=0, defaults=None, pool=[])
+
+    def batch(cases):
+        for c in cases:
+            c["id"] = st["next_id"]
+            st["next_id"] += 1
+        obs = vlib.run_vh(ctx, "config", cases) if cases else {}
+        defaults = obs.get(-1)
+        if cases and defaults is None:
+            raise vlib.Infra("the harness did not report the defaults")
+        st["defaults"] = defaults or st["defaults"]
+        for c in cases:
+            o = obs.get(c["id"])
+            if o is None:
+                raise vlib.Infra("no observation for config case %d" % c["id"])
+            mentions = len(c["files"]) + (1 if c["override"]["single"] != "absent" or c["override"]["rep"] else 0)
+            key = json.dumps([c["profiles"], c["files"], c["override"]], sort_keys=True)
+            ctx.count(key, nontrivial=mentions >= 2,
+                      sample=dict(case=c, observed=o) if mentions >= 3 and len(c["expect"]["rep"]) == 1
+                      and c["expect"]["rep"][0]["vals"] and c["id"] % 997 == 0 else None)
+            _judge(ctx, c, o, defaults, "in-process")
+        ctx.traces_validated += len(cases)
+        # keep a bounded pool of e2e candidates (no machine-level file, >= 2 sources involved)
+        elig = [c for c in cases if not any(f["base"] == "machine" for f in c["files"])
+                and len(c["files"]) + (c["override"]["single"] != "absent") + (c["override"]["rep"] > 0) >= 2]
+        random.Random(ctx.seed + st["next_id"]).shuffle(elig)
+        st["pool"] += elig[:400]
+
     if ctx.replay_only is not None:
-        cases = [d["case"] for d in ctx.replay_only if d.get("where", "in-process") == "in-process"]
+        batch([d["case"] for d in ctx.replay_only if d.get("where", "in-process") == "in-process"])
         e2e_cases = [d["case"] for d in ctx.replay_only if d.get("where") == "e2e"]
     else:
-        cases = []
         for cfg in (["GEN_Config_quick.cfg"] if ctx.quick else
                     ["GEN_Config_thorough.cfg", "GEN_Config_thorough_p2.cfg", "GEN_Config_thorough_p0.cfg"]):
-            cases += vlib.tlc(ctx, "Config", cfg, workers=8, timeout=2400,
-                              java_opts=None if ctx.quick else ["-Xmx8g"]).cases
+            batch(vlib.tlc(ctx, "Config", cfg, workers=8, timeout=2400, java_opts=["-Xmx6g"]).cases)
         ctx.exhaustive = True
-        e2e_cases = None
-    for i, c in enumerate(cases):
-        c["id"] = i
-    obs = vlib.run_vh(ctx, "config", cases) if cases else {}
-    defaults = obs.get(-1)
-    for c in cases:
-        o = obs.get(c["id"])
-        if o is None or defaults is None:
-            raise vlib.Infra("no observation for config case %d" % c["id"])
-        mentions = len(c["files"]) + (1 if c["override"]["single"] != "absent" or c["override"]["rep"] else 0)
-        key = json.dumps([c["profiles"], c["files"], c["override"]], sort_keys=True)
-        ctx.count(key, nontrivial=mentions >= 2,
-                  sample=dict(case=c, observed=o) if mentions >= 3 and len(c["expect"]["rep"]) == 1
-                  and c["expect"]["rep"][0]["vals"] and c["id"] % 997 == 0 else None)
-        _judge(ctx, c, o, defaults, "in-process")
-    ctx.traces_validated = len(cases)
+        random.Random(ctx.seed).shuffle(st["pool"])
+        e2e_cases = st["pool"][:40 if ctx.quick else 400]
+    defaults = st["defaults"]
     # algorithm-level diagnostic: the order in which the code opens its sources
     if defaults is not None:
         want = ["/etc/please/plzconfig", "/etc/please/plzconfig.p1", "/verif-vhome/.config/please/plzconfig",
                 "/verif-vhome/.config/please/plzconfig.p1"]
         if defaults.get("opened", [])[:4] != want:
             ctx.drift("sources are opened in an order other than the model's: %s" % defaults.get("opened", [])[:10])
-    _e2e(ctx, cases, e2e_cases)
+    _e2e(ctx, e2e_cases)
+
